@@ -35,11 +35,20 @@ def configs(tier, seed):
     # n = 2, N = 3: six configurations (quick) / all (thorough)
     n2N3 = list(itertools.product(PROPOSALS, ["library", "run"], [0.0, 0.2], [0.5, 1.0]))
     if tier == "quick":
-        n2N3 = [c for i, c in enumerate(n2N3) if i % 4 == (seed % 4)]
+        # a rotating quarter, plus always the configurations in which a resampling step meets unequal weights with more
+        # than one free slot (bootstrap proposal with outliers: unequal first-generation weights)
+        n2N3 = [c for i, c in enumerate(n2N3) if i % 4 == (seed % 4) or (c[0] == "bootstrap" and c[2] > 0)]
     for prop, wiring, op, thr in n2N3:
         cfgs.append(dict(move="pg", n=2, D=1, G=5, proposal=prop, wiring=wiring, outlier_prior=op, threshold=thr, N=3,
                          alpha=alphas[k % 3], data_seed=seed * 1000 + 77))
         k += 1
+        if prop == "bootstrap" and op > 0 and thr == 1.0:
+            # more than one free slot, resampling after a generation with unequal weights: whether one particle carries half of
+            # the weight depends on the data and the concentration, so several of each
+            for a2, ds in ((0.4, 77), (1.0, 77), (2.5, 78), (1.0, 79)):
+                if a2 != alphas[(k - 1) % 3] or ds != 77:
+                    cfgs.append(dict(move="pg", n=2, D=1, G=5, proposal=prop, wiring=wiring, outlier_prior=op, threshold=thr,
+                                     N=3, alpha=a2, data_seed=seed * 1000 + ds))
     # a single particle (the command line accepts --num-particles 1): the pass holds only the retained path
     for prop, wiring, op, n in itertools.product(PROPOSALS, ["library", "run"], [0.0, 0.2], [2, 3]):
         if tier == "quick" and n == 3 and (op > 0 or wiring == "run"):
